@@ -52,6 +52,10 @@ type Check struct {
 	// Post is called in the parent after all workers finished, to add
 	// check-specific summary keys to coverage.
 	Post func(tier string, cov map[string]interface{})
+	// Solo marks case indices that hold exactly one execution which is expected to be able to kill
+	// the worker (a recorded known finding): such a death loses nothing else, so it does not clear
+	// the exhaustive flag.
+	Solo func(tier string, idx int) bool
 	// ParentPre, if set, runs in the parent before workers start (e.g. an
 	// auxiliary -race pass); it may report violations via the returned list.
 	ParentPre func(tier string, p *Parent)
@@ -168,12 +172,37 @@ func (c *Ctx) Begin(locus, desc string) {
 		return
 	}
 	s := locus + "\x00" + desc
-	if len(s) > len(c.mark)-16 {
-		s = s[:len(c.mark)-16]
+	if len(s) > len(c.mark)-32 {
+		s = s[:len(c.mark)-32]
 	}
 	*(*int64)(unsafe.Pointer(&c.mark[0])) = int64(c.curCase)
 	*(*int32)(unsafe.Pointer(&c.mark[8])) = int32(len(s))
 	copy(c.mark[16:], s)
+	seq := (*int64)(unsafe.Pointer(&c.mark[len(c.mark)-8]))
+	atomic.AddInt64(seq, 1)
+}
+
+// BeginBytes is Begin for hot loops: the marker is locus, a short prefix and
+// the raw input bytes (hex-dumped by the parent if the worker dies); it does
+// not allocate.
+func (c *Ctx) BeginBytes(locus, prefix string, input []byte) {
+	if c.mark == nil {
+		return
+	}
+	m := c.mark[16 : len(c.mark)-16]
+	n := copy(m, locus)
+	if n < len(m) {
+		m[n] = 0
+		n++
+	}
+	n += copy(m[n:], prefix)
+	if n < len(m) {
+		m[n] = 1 // marks the start of raw bytes
+		n++
+	}
+	n += copy(m[n:], input)
+	*(*int64)(unsafe.Pointer(&c.mark[0])) = int64(c.curCase)
+	*(*int32)(unsafe.Pointer(&c.mark[8])) = int32(n)
 	seq := (*int64)(unsafe.Pointer(&c.mark[len(c.mark)-8]))
 	atomic.AddInt64(seq, 1)
 }
@@ -426,6 +455,7 @@ type Parent struct {
 	skipped   int
 	inexh     bool
 	restarts  int
+	lossyRestarts int
 	harnessErr []string
 }
 
@@ -670,6 +700,9 @@ func (p *Parent) runWorker(self string, shard, of int, deadline time.Time, workD
 				locus = parts[0]
 				if len(parts) > 1 {
 					desc = parts[1]
+					if i := strings.IndexByte(desc, 1); i >= 0 {
+						desc = desc[:i] + fmt.Sprintf(" input=%x", desc[i+1:])
+					}
 				}
 			}
 		}
@@ -682,6 +715,9 @@ func (p *Parent) runWorker(self string, shard, of int, deadline time.Time, workD
 		}
 		p.mu.Lock()
 		p.restarts++
+		if !(ck.Solo != nil && caseIdx >= 0 && ck.Solo(p.tier, caseIdx)) {
+			p.lossyRestarts++
+		}
 		p.mu.Unlock()
 		head := stderr
 		if len(head) > 600 {
@@ -805,7 +841,7 @@ func ParentMain(id, tier string) int {
 		fmt.Printf("VIOLATION property=%s replay=%s\n", id, path)
 		fmt.Printf("  sig: %s\n  what: %s\n  occurrences: %d\n", s, v.What, g.count)
 	}
-	exhaustive := !p.inexh && p.skipped == 0 && len(p.harnessErr) == 0 && p.restarts == 0
+	exhaustive := !p.inexh && p.skipped == 0 && len(p.harnessErr) == 0 && p.lossyRestarts == 0
 	cov := map[string]interface{}{
 		"evaluations":         p.evals,
 		"distinct_nontrivial": p.nt,
